@@ -104,18 +104,23 @@ def docExpectOf (cls attr : String) : Option Quantity :=
     (fun r => expectedRatio r.2.2.1 r.2.2.2)
 
 /-- attributes outside the C08 table that the code documents as a ratio (`Vtransfer`, `Itransfer`,
-    `Ytrans12`, `Ytransfer`, `Ztransfer`): wrapped in the class of the documented ratio.
-    PARTIAL: `TwoPort.Ztransfer` is excluded -- it returns `self.Ztrans12`, which is a plain method
-    (no `@property`), i.e. a bound method and no expression at all (finding C18-F26; the oracle
-    reports it on real objects).  Full statement: the same without `r.2.1 ≠ "Ztransfer"`. -/
-theorem tp_code_wrappers_documented_partial :
-    ∀ r ∈ tpWrap, r.2.1 ≠ "Ztransfer" → ∀ q, docExpectOf r.1 r.2.1 = some q → r.2.2 = some q := by
-  have h : tpWrap.all (fun r => r.2.1 == "Ztransfer" || match docExpectOf r.1 r.2.1 with
+    `Ytrans12`, `Ytransfer`, `Ztransfer`): wrapped in the class of the documented ratio; a
+    delegation to something that is not a property (a bound method: finding C18-F26, fixed) reads
+    as `none` and breaks this theorem -/
+theorem tp_code_wrappers_documented :
+    ∀ r ∈ tpWrap, ∀ q, docExpectOf r.1 r.2.1 = some q → r.2.2 = some q := by
+  have h : tpWrap.all (fun r => match docExpectOf r.1 r.2.1 with
       | none => true
       | some q => r.2.2 == some q) = true := by decide +kernel
-  intro r hr hne q hq
+  intro r hr q hq
   have := List.all_eq_true.mp h r hr
-  simpa [hne, hq] using this
+  simpa [hq] using this
+
+/-- the five extra documented attributes are in the table (non-vacuity) -/
+theorem tp_documented_attributes_present :
+    ∀ a ∈ ["Vtransfer", "Itransfer", "Ytrans12", "Ytransfer", "Ztransfer"],
+      tpWrap.any (fun r => r.1 == "TwoPort" && r.2.1 == a && (docExpectOf r.1 r.2.1).isSome) = true := by
+  decide
 
 /-! ## 3. the transfer-type netlist methods, on every internal route -/
 
